@@ -22,7 +22,7 @@ theorem convertRange_spec (M : Nat) (lo hi : Bound)
     | excl e =>
       have hs := hlo s (Or.inr rfl)
       have he := hhi e (Or.inr rfl)
-      simp only [convertRange, Bound.inverted, Bound.mem]
+      simp only [convertRange, Bound.inverted, Bound.mem, Bound.admitsLo, Bound.admitsHi]
       by_cases heq : s = e
       · subst heq; simp
       · by_cases h : s > e
@@ -35,7 +35,7 @@ theorem convertRange_spec (M : Nat) (lo hi : Bound)
             · by_cases h2 : s + 1 > e - 1
               · simp [heq, h, h0, h1, h2]; grind
               · simp [heq, h, h0, h1, h2]; grind
-    | _ => simp only [convertRange, Bound.inverted, Bound.mem] <;> grind
-  | _ => cases hi <;> simp only [convertRange, Bound.inverted, Bound.mem] <;> grind
+    | _ => simp only [convertRange, Bound.inverted, Bound.mem, Bound.admitsLo, Bound.admitsHi] <;> grind
+  | _ => cases hi <;> simp only [convertRange, Bound.inverted, Bound.mem, Bound.admitsLo, Bound.admitsHi] <;> grind
 
 end Roaring
